@@ -180,7 +180,9 @@ def main(ctx):
             os.environ["C03DIR"] = rec.tmp
             if spelling == "home":
                 os.environ["HOME"] = rec.tmp
-            fn = {"plain": fnr, "env": "$C03DIR/c03_%s.rec" % dk, "home": "~/c03_%s.rec" % dk}[spelling]
+            import pathlib
+            fn = {"plain": fnr, "env": "$C03DIR/c03_%s.rec" % dk, "home": "~/c03_%s.rec" % dk,
+                  "pathlib": pathlib.Path(fnr)}[spelling]
             m = dict(exists=False, delim=None, hdr=None, n=0, empty=False)
             h = None       # model of the open handle: dict(mode, first)
             sf = None
@@ -330,9 +332,9 @@ def main(ctx):
                                   bad_kinds=BADKINDS, headers=len(HDRS)))
 
     # the same world with the path spelled through an environment variable / through ~
-    for sp in ctx.pick(["env"], ["env", "home"]):
+    for sp in ctx.pick(["env", "pathlib"], ["env", "home", "pathlib"]):
         ctx.histories("sfile-world(A,path:%s)" % sp, [()], pristine(make_world("A", sp)), depth=ctx.pick(3, 5), nodedup_depth=2,
-                      bounds=dict(path_spelling={"env": "$C03DIR/name", "home": "~/name"}[sp]))
+                      bounds=dict(path_spelling={"env": "$C03DIR/name", "home": "~/name", "pathlib": "pathlib.Path(name)"}[sp]))
 
     # seeded from non-initial states: pre-existing files written through other routes
     seeds = [
